@@ -97,6 +97,20 @@ def hand_programs():
     add("one-statement-bodies", prog([ret(var("IN1"))], inputs=["IN1"], funcs=[func("F", ["X"], [ret(var("X"))]), func("G", ["X", "Y"], [ret(var("Y"))], [catch("@exc", [ret(num(0))])])],
                                      classes=[dict(cls("K", [("p", num(1))], ctor=func("K", ["X"], [ex(asg(this("p"), var("X")))]),
                                                    methods=[func("m", ["Z"], [ret(var("Z"))])]), getters=[func("g", [], [ret(this("p"))])])]))
+    # every combination of the program sections 导入 / 输入 / statements / 拦截 (each absent, short, long), with and without definitions
+    IMPS = {"i0": [], "i1": [dict(name="@JSON", lib=True, items=[])], "i2": [dict(name="mod-a", lib=False, items=["f", "g"]), dict(name="@JSON", lib=True, items=["p"]), dict(name="x-y-z", lib=False, items=[])]}
+    INPS = {"n0": [], "n1": ["IN1"], "n3": ["IN1", "IN2", "IN3"]}
+    BODS = {"b0": [], "b1": [ret(num(1))], "b3": [decl("A", num(1)), if_([A], [[mark("a")]]), disp(A)]}
+    CATS = {"c0": [], "c1": [catch("@exc", [ret(num(0))])], "c2": [catch("E1", [mark("h")]), catch("@exc", [mark("h2"), ret(num(2))])]}
+    for ik, iv in IMPS.items():
+        for nk, nv in INPS.items():
+            for bk, bv in BODS.items():
+                for ck, cv in CATS.items():
+                    if bk == "b0" and (ck != "c0" or nk != "n0"): continue        # a handler / an input line needs statements to belong to
+                    for withdef in (False, True):
+                        if withdef and not (ik == "i2" or nk == "n3"): continue
+                        fs = [func("F", ["X"], [ret(var("X"))])] if withdef else []
+                        add("sections-%s-%s-%s-%s%s" % (ik, nk, bk, ck, "-def" if withdef else ""), prog(json_copy(bv), funcs=fs, catches=json_copy(cv), inputs=list(nv)), imports=json_copy(iv))
     add("strings-and-lists", prog([decl("L", lst(s("a b"), s(""), lst(lst(num(1)), lst()), dct(["x"], [dct(["y"], [num(1)])]))), disp(s("含，标点：和、符号！"), num(-5), num(0))]))
     return P
 
